@@ -529,7 +529,7 @@ FgCanStep ==
 GenNext ==
     \/ /\ NoFinishPending
        /\ \/ \E h \in Hs : SeekOp(h, 0)
-          \/ \E h \in Hs, n \in {0, 1} : TruncOp(h, n)
+          \/ \E h \in Hs, n \in {0, 1, 2} : TruncOp(h, n)      \* (2: also a pure GROW of a segment being flushed)
           \/ \E h \in Hs, d \in WriteDatas : WriteStart(h, d)
           \/ \E sync \in BOOLEAN : FlushStart(sync, TRUE)
     \/ WriteSeek \/ WriteIter \/ PruneStep \/ WritePost \/ WriteEnd
